@@ -112,7 +112,7 @@ def combin(ctx, bins, thorough):
             subst=comb_subst("binom", False, "PascalOK"), workers=1)
     fams = [("binom", comb_subst("binom", True, "EmitRow")),
             ("comb", comb_subst("comb", True, "")),
-            ("perm", comb_subst("perm", True, "", maxpn=9 if thorough else 8, maxpc=40320 if thorough else 5040)),
+            ("perm", comb_subst("perm", True, "", maxpn=10 if thorough else 8, maxpc=40320 if thorough else 5040)),
             ("cart", comb_subst("cart", True, ""))]
     if thorough:
         fams.append(("cart-wide", comb_subst("cart", True, "", dimvals="{1,2,5,10}", dimlen=4)))
